@@ -20,8 +20,8 @@
 EXTENDS Evaluator, Tracker, TLC, Json, IOUtils
 
 Traces == JsonDeserialize(IOEnv.TRACE_FILE)
-VARIABLES tid, l, verdict, cfg, phase, open, calls, lastcall, nfun, hist, lastfail, fixedid, aborted
-rvars == <<cfg, phase, open, calls, lastcall, nfun, hist, lastfail, fixedid, aborted>>
+VARIABLES tid, l, verdict, cfg, phase, open, calls, lastcall, nfun, hist, lastfail, fixedid, aborted, stored
+rvars == <<cfg, phase, open, calls, lastcall, nfun, hist, lastfail, fixedid, aborted, stored>>
 
 SeqSet(s) == {s[i] : i \in 1..Len(s)}
 Lab(c) == [i \in 1..Len(c.labels) |-> <<c.labels[i][1], c.labels[i][2], c.labels[i][3]>>]
@@ -41,21 +41,21 @@ Item(x) == [id |-> x.id, kind |-> x.kind, hasfun |-> x.hasfun, obj |-> x.obj, na
 
 Init == /\ tid \in 1..Len(Traces) /\ l = 1 /\ verdict = "ok"
         /\ cfg = [R |-> 1] /\ phase = "idle" /\ open = FALSE /\ calls = 0 /\ lastcall = [labels |-> <<>>]
-        /\ nfun = 0 /\ hist = <<>> /\ lastfail = FALSE /\ fixedid = <<>> /\ aborted = FALSE
+        /\ nfun = 0 /\ hist = <<>> /\ lastfail = FALSE /\ fixedid = <<>> /\ aborted = FALSE /\ stored = <<>>
 
 Step(e) ==
   CASE e.ev = "Run" ->
          /\ cfg' = e /\ phase' = "idle" /\ open' = FALSE /\ calls' = 0 /\ nfun' = 0 /\ lastfail' = FALSE /\ fixedid' = <<>>
-         /\ UNCHANGED <<lastcall, hist, aborted>> /\ verdict' = "ok"
+         /\ UNCHANGED <<lastcall, hist, aborted, stored>> /\ verdict' = "ok"
     [] e.ev = "Ev" /\ e.etype = "START_STEP" ->
          /\ verdict' = IF phase \notin {"idle", "finished"} THEN "step_started_inside_a_step"
                        ELSE IF aborted THEN "step_ran_after_the_plan_was_aborted" ELSE "ok"
          /\ phase' = "started" /\ open' = FALSE /\ nfun' = 0 /\ lastfail' = FALSE
-         /\ UNCHANGED <<cfg, calls, lastcall, hist, fixedid, aborted>>
+         /\ UNCHANGED <<cfg, calls, lastcall, hist, fixedid, aborted, stored>>
     [] e.ev = "Ev" /\ e.etype = "START_EVAL" ->
          /\ verdict' = IF phase # "started" THEN "evaluation_outside_a_step" ELSE IF open THEN "evaluations_interleaved"
                        ELSE IF cfg.maxfun > 0 /\ nfun >= cfg.maxfun THEN "evaluation_after_budget_exhausted" ELSE "ok"
-         /\ open' = TRUE /\ calls' = 0 /\ UNCHANGED <<cfg, phase, lastcall, nfun, hist, lastfail, fixedid, aborted>>
+         /\ open' = TRUE /\ calls' = 0 /\ UNCHANGED <<cfg, phase, lastcall, nfun, hist, lastfail, fixedid, aborted, stored>>
     [] e.ev = "Call" ->
          /\ verdict' = IF ~open THEN "evaluator_called_outside_an_evaluation"
                        ELSE IF calls >= 1 THEN "more_than_one_evaluator_call_per_evaluation"
@@ -65,28 +65,30 @@ Step(e) ==
                        ELSE "ok"
          /\ calls' = calls + 1 /\ lastcall' = e
          /\ fixedid' = IF Len(fixedid) = 0 THEN [v \in 1..Len(e.fixedids) |-> IF Len(e.fixedids[v]) > 0 THEN e.fixedids[v][1] ELSE 0] ELSE fixedid
-         /\ UNCHANGED <<cfg, phase, open, nfun, hist, lastfail, aborted>>
+         /\ UNCHANGED <<cfg, phase, open, nfun, hist, lastfail, aborted, stored>>
     [] e.ev = "Ev" /\ e.etype = "FINISHED_EVAL" ->
          /\ verdict' = IF ~open THEN "FINISHED_EVALUATION_without_START_EVALUATION"
                        ELSE IF calls # 1 THEN "evaluation_without_evaluator_call" ELSE "ok"
-         /\ open' = FALSE /\ UNCHANGED <<cfg, phase, calls, lastcall, nfun, hist, lastfail, fixedid, aborted>>
+         /\ open' = FALSE /\ UNCHANGED <<cfg, phase, calls, lastcall, nfun, hist, lastfail, fixedid, aborted, stored>>
     [] e.ev = "Res" ->
          LET F == {i \in 1..Len(e.items) : e.items[i].kind = "F"}
              fails == \E i \in 1..Len(e.items) : ~e.items[i].hasfun
              bidx(i) == Cardinality({j \in F : j <= i})
-         IN /\ verdict' = IF \E i \in F : ~FlagsOK(lastcall, e.items[i], bidx(i)) THEN "failed_flags_not_the_nan_rows"
+         IN /\ verdict' = IF \E i \in 1..Len(e.items) : e.items[i].meta # cfg.meta THEN "metadata_not_attached_to_results"
+                          ELSE IF \E i \in F : ~FlagsOK(lastcall, e.items[i], bidx(i)) THEN "failed_flags_not_the_nan_rows"
                           ELSE IF \E i \in F : e.items[i].hasfun /\ Cardinality({r \in 1..cfg.R : ~e.items[i].failed[r]}) < cfg.minsucc
                                THEN "functions_reported_below_min_success"
                           ELSE IF cfg.maxfun > 0 /\ nfun + Cardinality(F) > cfg.maxfun + cfg.batch - 1 THEN "budget_exceeded"
                           ELSE "ok"
             /\ nfun' = nfun + Cardinality(F) /\ lastfail' = fails
             /\ hist' = IF cfg.tracked THEN Append(hist, [src |-> "tracked", items |-> [i \in 1..Len(e.items) |-> Item(e.items[i])]]) ELSE hist
+            /\ stored' = stored \o [i \in 1..Len(e.items) |-> e.items[i].id]
             /\ UNCHANGED <<cfg, phase, open, calls, lastcall, fixedid, aborted>>
     [] e.ev = "Ev" /\ e.etype = "FINISHED_STEP" ->
          /\ verdict' = IF phase # "started" THEN "FINISHED_STEP_without_START_STEP" ELSE "ok"
-         /\ phase' = "finished" /\ UNCHANGED <<cfg, open, calls, lastcall, nfun, hist, lastfail, fixedid, aborted>>
+         /\ phase' = "finished" /\ UNCHANGED <<cfg, open, calls, lastcall, nfun, hist, lastfail, fixedid, aborted, stored>>
     [] e.ev = "Abort" ->
-         /\ aborted' = TRUE /\ verdict' = "ok" /\ UNCHANGED <<cfg, phase, open, calls, lastcall, nfun, hist, lastfail, fixedid>>
+         /\ aborted' = TRUE /\ verdict' = "ok" /\ UNCHANGED <<cfg, phase, open, calls, lastcall, nfun, hist, lastfail, fixedid, stored>>
     [] e.ev = "Exit" ->
          /\ verdict' = IF e.code = "refused" THEN (IF aborted /\ phase = "idle" THEN "ok" ELSE "step_refused_without_abort")
                        ELSE IF aborted /\ phase = "idle" THEN "ok"          \* (unreachable: a latched plan refuses)
@@ -97,6 +99,10 @@ Step(e) ==
                        ELSE IF lastfail THEN "failure_not_reported_by_exit_code"
                        ELSE IF e.code = "maxfun" THEN (IF cfg.maxfun > 0 /\ nfun >= cfg.maxfun THEN "ok" ELSE "spurious_MAX_FUNCTIONS_REACHED")
                        ELSE IF e.code \in {"finished", "evalfinished"} THEN "ok" ELSE "undocumented_exit_" \o e.code
+         /\ UNCHANGED rvars
+    [] e.ev = "Store" ->          \* a store handler accumulates every delivered result, in order, exactly once
+         /\ verdict' = IF e.ids # [i \in 1..Len(stored) |-> stored[i]] THEN "store_handler_not_the_sequence_of_delivered_results"
+                       ELSE IF e.metashared THEN "results_share_one_metadata_object" ELSE "ok"
          /\ UNCHANGED rvars
     [] e.ev = "Best" ->
          /\ verdict' = IF IsBest(e.kept, hist, FALSE) THEN "ok" ELSE "tracked_result_not_the_feasible_optimum"
